@@ -223,6 +223,29 @@ def run(ctx, div=True):
     key_st = [n for n in cstores if isinstance(n.value, ast.Constant) and isinstance(n.value.value, str) and 'key' in n.value.value]
     warn_st = [n for n in cstores if 'ignore' in U(n.value)]
     uqx, msx = stats
+    # ---- "neither message otherwise": the comment is (re)assigned on every path of THIS iteration before it is
+    # appended; otherwise a plain attribute inherits the comment of the attribute profiled before it
+    if isinstance(cells[3], ast.Name):
+        cname = cells[3].id
+
+        def definitely(stmts):
+            for st_ in stmts:
+                if any(x is cells[3] for x in ast.walk(st_)):
+                    return False
+                if isinstance(st_, (ast.Assign, ast.AnnAssign)) and any(
+                        isinstance(t, ast.Name) and t.id == cname
+                        for t in (st_.targets if isinstance(st_, ast.Assign) else [st_.target])):
+                    return True
+                if isinstance(st_, ast.If) and st_.orelse and definitely(st_.body) and definitely(st_.orelse):
+                    return True
+                if isinstance(st_, (ast.With, ast.Try)) and definitely(st_.body):
+                    return True
+            return False
+        ok = definitely(lp.body)
+        ctx.check('R-PROF/comment', f, 'comment reset per attribute', ok,
+                  'the comment cell `%s` is not assigned on every path of one loop iteration before the row is appended: an '
+                  'attribute with duplicates and no missing value inherits the comment of the attribute profiled before it '
+                  '(or the value set before the loop)' % cname, lp, sample='`%s` assigned in every iteration' % cname)
     if len(key_st) == 1 and len(warn_st) == 1 and uqx and msx:
         inner = lambda c: c     # noqa
         kc = conds.of(key_st[0])
